@@ -33,6 +33,9 @@ type Prog struct {
 	Subjects []*ssa.Function            // every function (incl. anonymous) of module packages
 	allFns   map[*ssa.Function]bool
 
+	InlineLog []string // what the pre-inlining pass did (preinline.go)
+	Overlaid  int      // number of files analysed from the pre-inlined overlay
+
 	cgVTA *callgraph.Graph
 	cgCHA *callgraph.Graph
 }
@@ -50,6 +53,11 @@ func LoadProg(repo, goos, goarch string, patterns ...string) (*Prog, error) {
 		Dir:   repo,
 		Env:   env,
 		Tests: false,
+	}
+	// new helper functions (not on the confirmed tree) are substituted into their callers first: see preinline.go
+	overlay, inlLog := preInline(repo, env)
+	if overlay != nil {
+		cfg.Overlay = overlay
 	}
 	if len(patterns) == 0 {
 		patterns = []string{"./..."}
@@ -77,7 +85,7 @@ func LoadProg(repo, goos, goarch string, patterns ...string) (*Prog, error) {
 	sprog, _ := ssautil.AllPackages(pkgs, ssa.InstantiateGenerics)
 	sprog.Build()
 
-	p := &Prog{Repo: repo, GOOS: goos, GOARCH: goarch, SSA: sprog, byName: map[string][]*ssa.Function{}}
+	p := &Prog{Repo: repo, GOOS: goos, GOARCH: goarch, SSA: sprog, byName: map[string][]*ssa.Function{}, InlineLog: inlLog, Overlaid: len(overlay)}
 	if len(pkgs) > 0 {
 		p.Fset = pkgs[0].Fset
 	}
